@@ -460,21 +460,22 @@ def wit_term(w):
     return f"(mkWit {cq_bool(w['ok'])} {cq_Q(w['n'])} {cq_Q(w['nz'])} {vterm(w['ov'])} {vterm(w['nrm'])})"
 
 
-def observe(ml, spec):
-    """Run the implementation on the molecule described by spec.  Returns a dict with everything the model
-    comparison (term) and the oracle need; 'error' when building or the call raised."""
+def chem_of(snap):
+    """Chemistry-level description (atoms, bonds by position, exact coordinates) of a snapshot."""
+    pos = {s[0]: i for i, s in enumerate(snap["atoms"])}
+    atoms0 = [(s[1], s[7], s[8], h, s[4]) for s, h in zip(snap["atoms"], snap["hints"])]
+    bonds0 = [(pos[s[1]], pos[s[2]], s[3], s[5]) for s in snap["bonds"]]          # KeyError: a bond to a foreign atom
+    X0 = [[Fr(float(x)) for x in r] for r in snap["coords"]]                       # ValueError: a non-finite coordinate
+    return atoms0, bonds0, X0
+
+
+def observe_obj(ml, m, tg):
+    """Run the implementation on the live object m (targets tg: None = no arguments).  Returns a dict with everything
+    the model comparison (term) and the oracle need."""
     import numpy as np
-    from molli.math import mean_plane
-    from molli.chem import AtomType
-    from molli.math.polyhedra import TETRAHEDRON
-    try:
-        m = build(ml, spec)
-    except Exception as e:
-        return {"error": f"build: {type(e).__name__}: {e}"}
     before = snapshot(m)
     n0, nb0 = len(before["atoms"]), len(before["bonds"])
     pos = {id(a): i for i, a in enumerate(m.atoms)}
-    tg = spec.get("targets")
     raised = None
     with np.errstate(all="ignore"):
         try:
@@ -487,14 +488,21 @@ def observe(ml, spec):
     after = snapshot(m)
     out = {"m": m, "before": before, "after": after, "raised": raised, "n0": n0, "nb0": nb0, "pos": pos}
     # ---- chemistry-level description of the molecule before the call
-    atoms0 = [(s[1], s[7], s[8], h, s[4]) for s, h in zip(before["atoms"], before["hints"])]
     try:
-        bonds0 = [(pos[s[1]], pos[s[2]], s[3], s[5]) for s in before["bonds"]]
+        atoms0, bonds0, X0 = chem_of(before)
     except KeyError:
         return dict(out, error="a bond of the input joins an atom that is not in the molecule")
-    X0 = [[Fr(float(x)) for x in r] for r in before["coords"]]
     out.update(atoms0=atoms0, bonds0=bonds0, X0=X0)
     return out
+
+
+def observe(ml, spec):
+    """Build the molecule described by spec and run the implementation on it; 'error' when building failed."""
+    try:
+        m = build(ml, spec)
+    except Exception as e:
+        return {"error": f"build: {type(e).__name__}: {e}"}
+    return observe_obj(ml, m, spec.get("targets"))
 
 
 def sym_of(ml, z):
@@ -531,8 +539,9 @@ def analyse(ml, spec, ob):
     return tg, info
 
 
-def case_term(ml, spec, ob, tg, info):
-    after, n0 = ob["after"], ob["n0"]
+def call_parts(ob, targets, info):
+    """Coq text of one call: the molecule before (A0 B0 X0), targets, witnesses, the molecule after (A1 B1 X1)."""
+    after = ob["after"]
     m = ob["m"]
     pos = {id(a): i for i, a in enumerate(m.atoms)}
     atoms1 = [(s[1], s[7], s[8], h, s[4]) for s, h in zip(after["atoms"], after["hints"])]
@@ -543,11 +552,19 @@ def case_term(ml, spec, ob, tg, info):
     X1 = []
     for r in after["coords"]:
         X1.append([Fr(float(x)) if math.isfinite(float(x)) else Fr(0) for x in r])
-    targets = "None" if spec.get("targets") is None else "(Some " + cq_list(cq_nat(i) for i in spec["targets"]) + ")"
-    return ("(CMol " + cq_list(hatom_term(*a) for a in ob["atoms0"]) + "\n  " + cq_list(hbond_term(*b) for b in ob["bonds0"]) + "\n  "
-            + cq_list(vterm(x) for x in ob["X0"]) + "\n  " + targets + " " + cq_list(wit_term(i["w"]) for i in info) + "\n  "
-            + cq_list(hatom_term(*a) for a in atoms1) + "\n  " + cq_list(hbond_term(*b) for b in bonds1) + "\n  "
-            + cq_list(vterm(x) for x in X1) + ")")
+    return {"A0": cq_list(hatom_term(*a) for a in ob["atoms0"]), "B0": cq_list(hbond_term(*b) for b in ob["bonds0"]),
+            "X0": cq_list(vterm(x) for x in ob["X0"]),
+            "T": "None" if targets is None else "(Some " + cq_list(cq_nat(i) for i in targets) + ")",
+            "W": cq_list(wit_term(i["w"]) for i in info),
+            "A1": cq_list(hatom_term(*a) for a in atoms1), "B1": cq_list(hbond_term(*b) for b in bonds1),
+            "X1": cq_list(vterm(x) for x in X1)}
+
+
+def case_term(ml, spec, ob, tg, info):
+    p = call_parts(ob, spec.get("targets"), info)
+    if p is None:
+        return None
+    return (f"(CMol {p['A0']}\n  {p['B0']}\n  {p['X0']}\n  {p['T']} {p['W']}\n  {p['A1']}\n  {p['B1']}\n  {p['X1']})")
 
 
 # =================================================================== the oracle: the property judged on the implementation alone
@@ -833,6 +850,362 @@ def cdxml_specs(ml):
     return out
 
 
+# =================================================================== sessions: call -> edit in place -> call again
+# The routine is a method of a mutable object.  A session drives ONE live object through several calls with in-place
+# edits in between (element, formal charge, spin, hint, atom type, bond type/order, coordinates, hydrogens deleted,
+# bonds deleted, atoms added, a clone taken), or first through a call restricted to a few atoms and then through the
+# whole-molecule call, or reads every accessor of the object before editing it.  Before EVERY call the expected
+# counts, neighbours and directions are recomputed independently from the object's CURRENT state, so anything the
+# implementation remembers from an earlier call or read (a memoised electron count, bonded valence, neighbour list,
+# selection, radius, coordinate block ...) shows up as a violation on a concrete, replayable session.
+SESSION_ELEMS = ["B", "C", "C", "N", "N", "O", "O", "Si", "P", "S", "Al", "Ge", "As", "Se", "F", "Cl", "Fe"]
+EDIT_KINDS = ["element", "charge", "spin", "hint", "atype", "btype", "move", "shift", "strip", "delbond", "addatom", "clone"]
+
+
+def touch(m):
+    """Read every public property of every atom and the per-atom accessors of the structure (no mutation intended):
+    whatever the implementation memoises is now primed with the state BEFORE the edits."""
+    props = [n for n in dir(type(m.atoms[0])) if not n.startswith("_") and isinstance(getattr(type(m.atoms[0]), n, None), property)] if m.atoms else []
+    for a in list(m.atoms):
+        for n in props:
+            try:
+                getattr(a, n)
+            except Exception:
+                pass
+        for f in ("bonded_valence", "connected_atoms", "bonds_with_atom", "get_atom_coord", "n_bonds_with_atom", "get_atom_index"):
+            try:
+                r = getattr(m, f)(a)
+                if not isinstance(r, (int, float, str)) and hasattr(r, "__iter__"):
+                    list(r)
+            except Exception:
+                pass
+    for n in ("formula", "n_atoms", "n_bonds", "elements", "coords"):
+        try:
+            getattr(m, n)
+        except Exception:
+            pass
+
+
+def find_bond(m, i, j):
+    if max(i, j) >= len(m.atoms):
+        return None
+    ai, aj = m.atoms[i], m.atoms[j]
+    for b in m.bonds:
+        if (b.a1 is ai and b.a2 is aj) or (b.a1 is aj and b.a2 is ai):
+            return b
+    return None
+
+
+def neighbours_of(m, i):
+    ai = m.atoms[i]
+    return [(b.a2 if b.a1 is ai else b.a1) for b in m.bonds if b.a1 is ai or b.a2 is ai]
+
+
+def apply_edit(ml, m, e, n_base):
+    """One in-place edit of the live object, resolved against its current state.  Returns (object, applied?)."""
+    import numpy as np
+    from molli.chem import Atom, Bond, BondType, AtomType, Element
+    kind = e[0]
+    if kind == "clone":
+        return type(m)(m), True
+    if kind == "shift":
+        d = np.array([float(x) for x in e[1]])
+        if e[2]:
+            m.translate(d)
+        else:
+            m.coords = m.coords + d
+        return m, True
+    i = e[1]
+    if i >= len(m.atoms):
+        return m, False
+    a = m.atoms[i]
+    if kind == "element":
+        sym, how = e[2], e[3]
+        a.element = sym if how == "str" else Element[sym] if how == "enum" else int(Element[sym])
+    elif kind == "charge":
+        a.formal_charge = e[2]
+    elif kind == "spin":
+        a.formal_spin = e[2]
+    elif kind == "hint":
+        if e[2] is None:
+            a.attrib.pop(HINT, None)
+        else:                                        # a hint that fits the valence shell: neighbours + hydrogens <= 4
+            a.attrib[HINT] = max(0, min(e[2], 4 - len(neighbours_of(m, i))))
+    elif kind == "atype":
+        a.atype = AtomType[e[2]]
+    elif kind == "btype":
+        b = find_bond(m, i, e[2])
+        if b is None:
+            return m, False
+        b.btype = BondType[e[3]]
+        b.f_order = float(e[4])
+    elif kind == "delbond":
+        b = find_bond(m, i, e[2])
+        if b is None:
+            return m, False
+        m.del_bond(b)
+    elif kind == "move":
+        d = np.array([float(x) for x in e[2]])
+        if e[3]:
+            m.coords[i] = m.coords[i] + d
+        else:
+            c = np.array(m.coords, dtype=float)
+            c[i] += d
+            m.coords = c
+    elif kind == "strip":                            # delete up to n of the hydrogens the routine put on atom i
+        idx = {id(x): k for k, x in enumerate(m.atoms)}
+        hs = [x for x in neighbours_of(m, i) if idx[id(x)] >= n_base and int(x.element) == 1]
+        hs = (hs if e[3] else hs[::-1])[:e[2]]
+        if not hs:
+            return m, False
+        for h in hs:
+            m.del_atom(h)
+    elif kind == "addatom":
+        if len(neighbours_of(m, i)) >= 4:
+            return m, False
+        c = np.array(m.coords[i], dtype=float) + np.array([float(x) for x in e[3]])
+        if np.min(np.linalg.norm(np.array(m.coords, dtype=float) - c, axis=1)) < 0.9:
+            return m, False
+        x = Atom(e[2])
+        m.add_atom(x, c)
+        m.append_bond(Bond(a, x, btype=BondType[e[4]]))
+    else:
+        raise ValueError(kind)
+    return m, True
+
+
+def degenerate_target(X0, it):
+    """Would placing hydrogens on this target divide by (nearly) zero?  Such geometry is outside the property's
+    quantifier ('non-degenerate geometry'); in a session it can arise from the edits, and the target is left out."""
+    if (it["k"] or 0) <= 0 or not it["nb"]:
+        return False
+    a = X0[it["t"]]
+    rs = [vsub(X0[j], a) for j in it["nb"]]
+    eps = Fr(1, 25)
+    if len(rs) == 3:
+        n = vcross(vsub(rs[1], rs[0]), vsub(rs[2], rs[0]))
+        return vdot(n, n) < eps
+    c = vmean(rs)
+    if vdot(c, c) < eps:
+        return True
+    if len(rs) == 2 and it["k"] == 2:
+        z = vcross(rs[0], rs[1])
+        return vdot(z, z) < eps
+    return False
+
+
+def run_session(ml, sess):
+    """Drive one live object through the session.  Returns (Coq term or None, violations, stats).  The session stops at
+    the first call on which the oracle objects (what follows would be judged on a state that is already wrong)."""
+    stats = {"calls": 0, "phases": [], "edits": [], "branches": [], "anti": 0, "added": 0, "excluded": 0, "adds_after": 0, "steps": 0}
+    try:
+        m = build(ml, sess["base"])
+    except Exception as e:
+        return None, [("C16:input", f"build: {type(e).__name__}: {e}")], dict(stats, skipped=str(e))
+    n_base = len(m.atoms)
+    viol, init, steps = [], None, []
+    since, log = set(), []
+    for st in sess["steps"]:
+        stats["steps"] += 1
+        if st[0] == "touch":
+            touch(m)
+            since.add("touch")
+            continue
+        if st[0] == "edit":
+            try:
+                m, done = apply_edit(ml, m, st[1], n_base)
+            except Exception as e:
+                viol.append(("C16:session:edit-raised:" + st[1][0], f"the in-place edit {st[1]} raised {type(e).__name__}: {e}"))
+                break
+            if done:
+                since.add("edit")
+                log.append(st[1])
+                stats["edits"].append(st[1][0])
+            continue
+        # ---- a call: everything expected is recomputed from the object's current state
+        try:
+            pre = dict(zip(("atoms0", "bonds0", "X0"), chem_of(snapshot(m))))
+        except (KeyError, ValueError, OverflowError):
+            break
+        req = st[1]
+        if req is not None:
+            req = [t for k, t in enumerate(req) if t < len(pre["atoms0"]) and t not in req[:k]
+                   and (GROUP_OF.get(sym_of(ml, pre["atoms0"][t][0])) is not None or pre["atoms0"][t][3] is not None)]
+            if not req:
+                continue
+        tg, info = analyse(ml, {"targets": req}, pre)
+        bad = {i["t"] for i in info if degenerate_target(pre["X0"], i)}
+        targets = req
+        if bad:
+            stats["excluded"] += len(bad)
+            info = [i for i in info if i["t"] not in bad]
+            tg = targets = [t for t in tg if t not in bad]
+            if not targets:
+                continue
+        phase = (("first" if not since else "after-read" if since == {"touch"} else "after-read-and-edit") if stats["calls"] == 0
+                 else ("after-call-and-edit" if "edit" in since else "after-call"))
+        ob = observe_obj(ml, m, targets)
+        if "error" in ob:
+            break
+        v = judge(ml, {"targets": targets}, ob, tg, info)
+        stats["calls"] += 1
+        stats["phases"].append(phase)
+        stats["branches"] += [f"k={max(i['k'] or 0, 0)}:nn={len(i['nb'])}" + (":planar" if i["w"]["planar"] else "")
+                              + ("" if i["w"]["ok"] else ":degenerate") for i in info]
+        stats["anti"] += sum(1 for i in info if i["w"]["anti"])
+        added = len(ob["after"]["atoms"]) - ob["n0"]
+        stats["added"] += added
+        if added and phase != "first":
+            stats["adds_after"] += 1
+        for sig, text in v:
+            viol.append(("C16:session:" + phase + ":" + sig[4:],
+                         f"call {stats['calls']} of a session on one object ({phase}; edits since the previous call: "
+                         f"{json.dumps(log) if log else 'none'}; targets {targets}): {text}"))
+        parts = None if ob["raised"] else call_parts(ob, targets, info)
+        if parts is not None:
+            if init is None:
+                init = f"{parts['A0']}\n  {parts['B0']}\n  {parts['X0']}"
+            elif "edit" in since:
+                steps.append(f"OEdit {parts['A0']}\n   {parts['B0']}\n   {parts['X0']}")
+            steps.append(f"OCall {parts['T']} {parts['W']}\n   {parts['A1']}\n   {parts['B1']}\n   {parts['X1']}")
+        since, log = set(), []
+        if v or parts is None:
+            break
+    term = None if init is None else "(CSess " + init + "\n  [" + ";\n   ".join(steps) + "])"
+    return term, viol, stats
+
+
+def gen_edits(rng, base, syms, hot=None):
+    """1-3 in-place edits of base atoms.  `syms` (current element of every base atom) is updated."""
+    alld, _ = directions()
+    n = len(base["atoms"])
+    main = [i for i in range(n) if GROUP_OF.get(syms[i]) in (13, 14, 15, 16)] or list(range(n))
+    out = []
+
+    def pick():
+        if hot is not None and rng.random() < 0.5:
+            return hot
+        return rng.choice(main) if rng.random() < 0.8 else rng.randrange(n)
+
+    def element(i):
+        new = rng.choice([x for x in SESSION_ELEMS if x != syms[i]])
+        syms[i] = new
+        return ["element", i, new, rng.choice(["str", "enum", "int"])]
+
+    for _ in range(rng.choice([1, 1, 2, 2, 3])):
+        r = rng.random()
+        i = pick()
+        if r < 0.22:
+            out.append(element(i))
+        elif r < 0.42:                                  # the hydrogens go, the atom becomes something else
+            out.append(["strip", i, rng.choice([1, 1, 2, 4]), rng.random() < 0.5])
+            if rng.random() < 0.8:
+                out.append(element(i))
+        elif r < 0.50:
+            out.append(["charge", i, rng.choice([-1, 0, 1, 1])])
+        elif r < 0.57:
+            out.append(["spin", i, rng.choice([0, 1, 2, -1])])
+        elif r < 0.68 and base["bonds"]:
+            b = rng.choice(base["bonds"])
+            bt = rng.choice(["Single", "Single", "Double", "Triple", "Aromatic", "FractionalOrder", "Amide", "Dummy"])
+            out.append(["btype", b[0], b[1], bt, rng.choice([1.25, 1.5, 1.75, 2.5]) if bt == "FractionalOrder" else 1.0])
+        elif r < 0.73:
+            out.append(["hint", i, rng.choice([None, None, 0, 1, 2, 3])])
+        elif r < 0.77:
+            out.append(["atype", i, rng.choice(["Regular", "Aromatic", "Unknown", "CoordinationCenter"])])
+        elif r < 0.83:
+            out.append(["move", i, [rng.randint(-2, 2) / 16 for _ in range(3)], rng.random() < 0.5])
+        elif r < 0.86:
+            out.append(["shift", [rng.randint(-8, 8) / 4 for _ in range(3)], rng.random() < 0.5])
+        elif r < 0.90 and base["bonds"]:
+            b = rng.choice(base["bonds"])
+            out.append(["delbond", b[0], b[1]])
+        elif r < 0.96:
+            out.append(["addatom", i, rng.choice(["C", "N", "O", "F", "Cl", "S"]), [float(c) for c in rng.choice(alld)],
+                        rng.choice(["Single", "Single", "Double"])])
+        else:
+            out.append(["clone"])
+    return [["edit", e] for e in out]
+
+
+def gen_session(rng):
+    base = gen_spec(rng)
+    base["targets"] = None
+    syms = [a[0] for a in base["atoms"]]
+    n = len(syms)
+
+    def subset():
+        cand = [i for i in range(n) if GROUP_OF.get(syms[i]) is not None or base["atoms"][i][3] is not None]
+        rng.shuffle(cand)
+        return cand[:rng.randint(1, min(3, max(1, len(cand))))]
+
+    main = [i for i in range(n) if GROUP_OF.get(syms[i]) in (13, 14, 15, 16)]
+    hot = rng.choice(main) if main else None
+    pat = rng.random()
+    if pat < 0.40:                                      # call, edit, call (, call)
+        steps = [["call", None]] + gen_edits(rng, base, syms, hot) + [["call", None]]
+        if rng.random() < 0.4:
+            steps.append(["call", None])
+    elif pat < 0.52:                                    # a few atoms first, then the whole molecule, then again
+        steps = [["call", subset()], ["call", None], ["call", None]]
+    elif pat < 0.66:                                    # a few atoms, edit, the whole molecule
+        steps = [["call", subset()]] + gen_edits(rng, base, syms, hot) + [["call", None]]
+    elif pat < 0.80:                                    # read everything, edit, call
+        steps = [["touch"]] + gen_edits(rng, base, syms, hot) + [["call", None]]
+        if rng.random() < 0.5:
+            steps += gen_edits(rng, base, syms, hot) + [["call", rng.choice([None, None, subset()])]]
+    else:                                               # two rounds of edits
+        steps = ([["call", None]] + gen_edits(rng, base, syms, hot) + [["call", rng.choice([None, None, subset()])]]
+                 + gen_edits(rng, base, syms, hot) + [["call", None]])
+    return {"base": base, "steps": steps}
+
+
+def ring_session(rng):
+    """An aromatic six-ring skeleton (the atoms keep three neighbours after the first call) whose atoms are then
+    exchanged for other elements with or without losing their hydrogen."""
+    k = rng.randint(0, 5)
+    X = [[1.375 * math.cos(i * math.pi / 3 + 0.25 * k), 1.375 * math.sin(i * math.pi / 3 + 0.25 * k), 0.0625 * i] for i in range(6)]
+    syms = [rng.choice(["C", "C", "C", "N"]) for _ in range(6)]
+    base = {"cls": rng.choice(["Molecule", "Structure"]), "atoms": [[s, 0, 0, None, "Regular", [round(c * 64) / 64 for c in x]] for s, x in zip(syms, X)],
+            "bonds": [[i, (i + 1) % 6, "Aromatic", 1.0] for i in range(6)], "targets": None}
+    steps = [["call", None]]
+    for _ in range(rng.randint(1, 2)):
+        i = rng.randrange(6)
+        if rng.random() < 0.6:
+            steps.append(["edit", ["strip", i, 1, True]])
+        new = rng.choice([x for x in ["B", "C", "N", "O", "Si", "P", "S"] if x != syms[i]])
+        syms[i] = new
+        steps.append(["edit", ["element", i, new, rng.choice(["str", "enum", "int"])]])
+    steps += [["call", None], ["call", None]]
+    return {"base": base, "steps": steps}
+
+
+FIXED_SESSIONS = [
+    # isolated atom: call, the caller strips the hydrogens and exchanges the element, call, call
+    ("lone:" + a + "->" + b, {"base": {"cls": cls, "atoms": [[a, 0, 0, None, "Regular", [0.25, -0.25, 1]]], "bonds": [], "targets": None},
+                             "steps": [["call", None], ["edit", ["strip", 0, 4, True]], ["edit", ["element", 0, b, how]], ["call", None], ["call", None]]})
+    for a, b, cls, how in [("C", "N", "Structure", "enum"), ("N", "C", "Molecule", "str"), ("O", "B", "Molecule", "int"), ("C", "O", "Structure", "str"),
+                           ("S", "Si", "Molecule", "enum"), ("B", "P", "Structure", "int"), ("C", "F", "Molecule", "str"), ("Cl", "C", "Molecule", "enum")]
+] + [
+    # nothing stripped: the saturated atom becomes an element with more room
+    ("kept:" + a + "->" + b, {"base": {"cls": "Molecule", "atoms": [[a, 0, 0, None, "Regular", [0, 0, 0]], ["Cl", 0, 0, None, "Regular", [1.5, 0.5, 0.25]]],
+                                      "bonds": [[0, 1, "Single", 1.0]], "targets": None},
+                             "steps": [["call", None], ["edit", ["element", 0, b, "str"]], ["call", None], ["call", None]]})
+    for a, b in [("N", "C"), ("O", "N"), ("O", "C"), ("B", "C"), ("S", "Si"), ("P", "C")]
+] + [
+    ("charge-then-call", {"base": {"cls": "Molecule", "atoms": [["N", 1, 0, None, "Regular", [0, 0, 0]], ["C", 0, 0, None, "Regular", [1.25, 0.5, 0.25]]],
+                                   "bonds": [[0, 1, "Single", 1.0]], "targets": None},
+                          "steps": [["call", None], ["edit", ["strip", 0, 1, True]], ["edit", ["charge", 0, 0]], ["call", None], ["call", None]]}),
+    ("bond-then-call", {"base": {"cls": "Structure", "atoms": [["C", 0, 0, None, "Regular", [0, 0, 0]], ["C", 0, 0, None, "Regular", [1.25, 0.25, 0.5]]],
+                                 "bonds": [[0, 1, "Triple", 1.0]], "targets": None},
+                        "steps": [["call", None], ["edit", ["btype", 0, 1, "Double", 1.0]], ["call", None], ["call", None]]}),
+    ("subset-then-all", {"base": {"cls": "Molecule", "atoms": [["C", 0, 0, None, "Regular", [0, 0, 0]], ["N", 0, 0, None, "Regular", [1.25, 0.5, 0.25]],
+                                                             ["O", 0, 0, None, "Regular", [2.0, 1.5, 0.5]]],
+                                  "bonds": [[0, 1, "Single", 1.0], [1, 2, "Single", 1.0]], "targets": None},
+                         "steps": [["call", [1]], ["call", None], ["call", None]]}),
+]
+
+
 # =================================================================== run / replay
 HEADER = ("From Coq Require Import List ZArith NArith QArith.\nImport ListNotations.\n"
           "From Molli Require Import Common.Field3 Model.Hadd.\n")
@@ -863,6 +1236,14 @@ def all_specs(ctx, ml):
     items += [("planar", planar_spec(rng)) for _ in range(6 if not ctx.thorough else 40)]
     items += [("random", gen_spec(rng)) for _ in range(n_rand)]
     items += [("cdxml", sp) for sp in cdxml_specs(ml)]
+    return items
+
+
+def all_sessions(ctx):
+    rng = ctx.rng
+    items = [("session-fixed:" + nm, se) for nm, se in FIXED_SESSIONS]
+    items += [("session-ring", ring_session(rng)) for _ in range(12 if not ctx.thorough else 120)]
+    items += [("session-random", gen_session(rng)) for _ in range(110 if not ctx.thorough else 1800)]
     return items
 
 
@@ -934,8 +1315,43 @@ def run(ctx, rep):
                  sample=({"kind": kind, "spec": spec, "branches": stats["branches"]} if n % 61 == 0 else None))
         terms.append(term)
         owners.append(n)
+    # ---- sessions: several calls on one live object, edited in place between the calls
+    weight = [1] * len(terms)
+    for kind, sess in all_sessions(ctx):
+        n = len(items)
+        items.append((kind, sess))
+        term, viol, stats = run_session(ml, sess)
+        rep.count(kind.split(":")[0])
+        rep.count("session:calls", stats["calls"])
+        for ph in stats["phases"]:
+            rep.count("session:call:" + ph)
+        for ek in stats["edits"]:
+            rep.count("session:edit:" + ek)
+        for br in stats["branches"]:
+            rep.count("session:branch:" + br)
+        if stats["anti"]:
+            rep.count("rotation:antiparallel-branch", stats["anti"])
+        if stats["adds_after"]:
+            rep.count("session:later-call-adds-hydrogens", stats["adds_after"])
+        if stats["excluded"]:
+            rep.count("session:degenerate-target-left-out", stats["excluded"])
+        for sig, text in viol:
+            found = True
+            viol_at.setdefault(n, []).append(sig)
+            rep.violate(sig, f"[{kind}] {text}", {"kind": "session", "session": sess})
+        if term is None:
+            rep.case(key=None)
+            rep.count("not-compared")
+            continue
+        rep.case(key=(json.dumps(sess, sort_keys=True) if stats["added"] and stats["calls"] > 1 else None),
+                 sample=({"kind": kind, "session": sess, "phases": stats["phases"]} if n % 37 == 0 else None))
+        terms.append(term)
+        owners.append(n)
+        weight.append(max(1, stats["calls"]))
     size = 30 if not ctx.thorough else 120
-    nsh = max(1, -(-len(terms) // size))
+    nsh = max(1, -(-sum(weight) // size))
+    if not ctx.thorough:
+        nsh = min(nsh, max(1, (os.cpu_count() or 4)))            # one wave of coqc processes
     order = [j for s0 in range(nsh) for j in range(s0, len(terms), nsh)]
     terms = [terms[j] for j in order]
     owners = [owners[j] for j in order]
@@ -967,7 +1383,7 @@ def run(ctx, rep):
 def neighbourhood(ctx, ml, spec):
     """Oracle over variations of a molecule on which model and implementation disagree."""
     out = []
-    if "cdxml" in spec:
+    if "cdxml" in spec or "base" in spec:
         return out
     import random
     r = random.Random(7)
@@ -992,6 +1408,9 @@ def neighbourhood(ctx, ml, spec):
 def replay(ctx, data):
     warnings.simplefilter("ignore")
     import molli as ml
+    if data.get("kind") == "session":
+        _, viol, _ = run_session(ml, data["session"])
+        return [vlib.Violation(sig, text, data) for sig, text in viol]
     if data.get("kind") != "spec":
         return []
     _, viol, _ = process(ml, data["spec"])
